@@ -21,8 +21,8 @@ import (
 
 func init() {
 	fw.Register(&fw.Check{
-		ID: "C16",
-		Rule: "cases: public keys of the five types; EC points are also constructed from a chosen x (0..3 leading zero bytes, y by modular square root) so that fixed-width encoding of short coordinates is exercised for every curve, and searched for leading-zero y. Each key: GetPublicKeyJWK -> kty/crv/width checks against own fixed-width encoding -> jwsutil.JWK.UnmarshalJSON round trip -> commitment equality with the reference; then labelled bad JWKs (leading zero dropped/added, trailing byte, one bit flipped in x or y and verified off-curve with the curve equation, curve name swapped, missing coordinate) must be rejected by UnmarshalJSON and by VerifySignature. distinct = (curve, leading zero bytes in x, in y, mutation).",
+		ID:          "C16",
+		Rule:        "cases: public keys of the five types; EC points are also constructed from a chosen x (0..3 leading zero bytes, y by modular square root) so that fixed-width encoding of short coordinates is exercised for every curve, and searched for leading-zero y. Each key: GetPublicKeyJWK -> kty/crv/width checks against own fixed-width encoding -> jwsutil.JWK.UnmarshalJSON round trip -> commitment equality with the reference; then labelled bad JWKs (leading zero dropped/added, trailing byte, one bit flipped in x or y and verified off-curve with the curve equation, curve name swapped, missing coordinate) must be rejected by UnmarshalJSON and by VerifySignature. distinct = (curve, leading zero bytes in x, in y, mutation).",
 		Assumptions: []string{"math/big modular arithmetic and curve parameters from crypto/elliptic and btcec", "harness base64url codec"},
 		Require:     []string{"roundtrip", "leading-zero-x", "leading-zero-y", "bad-jwk", "ed25519", "public-key-bytes", "x-at-or-above-group-order"},
 		Run:         runC16,
@@ -289,7 +289,9 @@ func c16EC(c *fw.Case, typ string, x, y *big.Int) {
 	}
 	add("x-leading-zero-added", func(m map[string]interface{}) { m["x"] = oracle.B64(append([]byte{0}, xb...)) })
 	add("y-leading-zero-added", func(m map[string]interface{}) { m["y"] = oracle.B64(append([]byte{0}, yb...)) })
-	add("x-trailing-byte", func(m map[string]interface{}) { m["x"] = oracle.B64(append(append([]byte{}, xb...), byte(r.Intn(256)))) })
+	add("x-trailing-byte", func(m map[string]interface{}) {
+		m["x"] = oracle.B64(append(append([]byte{}, xb...), byte(r.Intn(256))))
+	})
 	add("y-truncated", func(m map[string]interface{}) { m["y"] = oracle.B64(yb[:w-1]) })
 	add("x-missing", func(m map[string]interface{}) { delete(m, "x") })
 	add("y-missing", func(m map[string]interface{}) { delete(m, "y") })
